@@ -22,7 +22,7 @@ PROP = dict(
         quick="FIR real+complex: nh 2..64 and {100,127,128,129,255,256,257,512,1024}; coefficient letters: every delta_j (nh<=64; ends only "
               "above), symmetric, sparse, dense (complex: rotated per tap); input lengths 0..3*block+2 (nh<=16), else {0,1,block-1,block,"
               "block+1,2*block,3*block+1,20000} (the 20000 length only with end taps/sym/sparse/dense); inputs: all impulse positions "
-              "(nh<=16) or 8 boundary positions, LCG, 1e+-100; FftFilter multi-call (real+complex, dense coefficients, from rest): every nh 2..64 and the 9 large nh, streams {LCG, impulse at 0, impulse at block}, all 216 sequences of 3 calls with lengths in {1,block-1,block,block+1,2block,2block+3} plus [r,block,block,2block-r] for r 1..min(block-1,8): after each call floor(fed/block_size)*block_size samples emitted, all equal to the defining sum (FFT tolerance) and to FirFilter on the concatenated input; xcorr all (n1,n2) in 1..16^2 x all impulse pairs + dense, 7 large pairs "
+              "(nh<=16) or 8 boundary positions, LCG, 1e+-100; FirFilter multi-call (real+complex, dense coefficients, one object from rest): nh in {2,3,4,5,8,16,17,31,32,33,64,100,257}, streams {LCG, impulse at 0, impulse at nh}, all sequences of 3 calls with frame lengths in {0,1,2,nh-1,nh,nh+1,30,64} (<= 512) plus 3 longer alternating sequences: every call returns len samples equal to the defining sum over the stream fed so far (direct-form tolerance); FftFilter multi-call (real+complex, dense coefficients, from rest): every nh 2..64 and the 9 large nh, streams {LCG, impulse at 0, impulse at block}, all 216 sequences of 3 calls with lengths in {1,block-1,block,block+1,2block,2block+3} plus [r,block,block,2block-r] for r 1..min(block-1,8): after each call floor(fed/block_size)*block_size samples emitted, all equal to the defining sum (FFT tolerance) and to FirFilter on the concatenated input; xcorr all (n1,n2) in 1..16^2 x all impulse pairs + dense, 7 large pairs "
               "up to (4097,4096), auto-correlation n 1..16 + 5 large; MAFilter n 1..64,100,1000, lengths 0..3n+2 (n<=16) or 8 boundary lengths up to 5n+3, real and complex, array and scalar "
               "overload, letters impulse, LCG, constant, 1e+-100 alternating, 1e+100 burst followed by 1e-100",
         thorough="as quick with long input 10^5 for every coefficient letter, xcorr (n1,n2) in 1..48^2 x all impulse pairs, auto n 1..48"),
@@ -32,7 +32,7 @@ PROP = dict(
         "|err_i| <= 64*log2(fft_len)*eps*|c|2*|x|2 (global norms: low-level parts of the 1e+-100 letter are only required to be finite and "
         "within that bound); MAFilter |err_i| <= (2n+8)*eps/n*sum_{k<2n}|x[i-k]| (running sum re-accumulated every n samples)",
         "real filters are fed real inputs and complex filters complex inputs (mixed FftFilter overloads are not claimed by the statement)",
-        "one process() call from rest per FIR case; FftFilter additionally over short call sequences (pending samples, aligned/unaligned frames); general framing invariance is property C06",
+        "one process() call from rest per FIR case; FirFilter (changing frame lengths) and FftFilter additionally over short call sequences (pending samples, aligned/unaligned frames); general framing invariance is property C06",
         "'in multiples of its block size' is read with the size FftFilter::block_size() reports (output length floor(len/bs)*bs); the "
         "enumerated input lengths are placed around 2^nextpow2(2*nh)-nh+1, the block size of the pinned implementation",
     ],
